@@ -1,7 +1,7 @@
 """Property -> rules registry (DESIGN.md sections 0, 4, 5)."""
 import copy
 
-from rules import x_emit, x_macro, g_thread, g_cover, g_alt, g_struct, g_lex, k_keywords, t_tree, x_pp, x_calls, w_api, s_state, p_panic
+from rules import x_emit, x_macro, x_range, g_thread, g_cover, g_alt, g_struct, g_lex, k_keywords, t_tree, x_pp, x_calls, w_api, s_state, p_panic
 
 TRUSTED_BASE = [
     'rustc front end / MIR construction (nightly 1.97) and syn 2 as parsers of the Rust sources',
@@ -14,7 +14,7 @@ _cache = {}
 
 MODULES = {
     'g_thread': g_thread.run, 'g_cover': g_cover.run, 'g_alt': g_alt.run, 'g_struct': g_struct.run,
-    'x_emit': x_emit.run, 'x_macro': x_macro.run, 'g_lex': g_lex.run, 's_state': s_state.run, 'p_panic': p_panic.run,
+    'x_emit': x_emit.run, 'x_macro': x_macro.run, 'x_range': x_range.run, 'g_lex': g_lex.run, 's_state': s_state.run, 'p_panic': p_panic.run,
     'k_keywords': k_keywords.run, 't_tree': t_tree.run, 'x_pp': x_pp.run, 'x_calls': x_calls.run, 'w_api': w_api.run,
 }
 # rule id -> module that computes it
@@ -22,7 +22,7 @@ RULE_HOME = {
     'G1': 'g_thread', 'G3': 'g_thread',
     'G5': 'g_cover', 'G8': 'g_cover',
     'G6': 'g_alt', 'G7': 'g_alt',
-    'G0': 'g_struct', 'G9': 'g_struct', 'G10': 'g_struct', 'G11': 'g_struct', 'G12': 'g_struct', 'G13': 'g_struct', 'G14': 'g_struct',
+    'G0': 'g_struct', 'G9': 'g_struct', 'G10': 'g_struct', 'G11': 'g_struct', 'G12': 'g_struct', 'G13': 'g_struct', 'G14': 'g_struct', 'G15': 'g_struct',
     'K1': 'k_keywords', 'K2': 'k_keywords', 'K3': 'k_keywords', 'K4': 'k_keywords',
     'T1': 't_tree', 'T2': 't_tree', 'T3': 't_tree', 'G4c': 't_tree', 'T4': 't_tree',
     'X1': 'x_pp', 'X2': 'x_pp', 'X3': 'x_pp', 'X5': 'x_pp', 'X6': 'x_pp', 'X7': 'x_pp',
@@ -30,7 +30,7 @@ RULE_HOME = {
     'W1': 'w_api', 'W2': 'w_api', 'W3': 'w_api', 'W4': 'w_api', 'W5': 'w_api', 'W6': 'w_api',
     'G2': 'g_lex', 'G4': 'g_lex',
     'S1': 's_state', 'S2': 's_state', 'S3': 's_state', 'S4': 's_state', 'S5': 's_state', 'S6': 's_state', 'S7': 's_state',
-    'P1': 'p_panic', 'X4': 'x_emit', 'X13': 'x_macro', 'X14': 'x_macro', 'X15': 'x_macro', 'X16': 'x_macro',
+    'P1': 'p_panic', 'X4': 'x_emit', 'X13': 'x_macro', 'X14': 'x_macro', 'X15': 'x_macro', 'X16': 'x_macro', 'X17': 'x_range',
 }
 
 
@@ -115,14 +115,14 @@ PROPS = {
         'technique': 'call-graph reachability + constructor coverage over the CST type graph; ordered-choice prefix analysis',
     },
     'C03': {
-        'rules': [rule('X1'), rule('X2'), rule('X3')],
+        'rules': [rule('X1'), rule('X2'), rule('X3'), rule('X17')],
         'explanation': 'Every emission site that copies source text records Range(offset, offset+len) of exactly that text under the '
                        'file being read (X1, 21 sites); only new/push/merge write the text and the map, push keys each segment by '
                        '[len before, len before + s.len()) and merge re-bases keys and origins (X3), so keys tile the output; keys '
                        'are never empty (X2), which is what Range\'s overlap-as-equality ordering needs for a 1-byte probe to find '
                        'exactly the segment containing it; text without origin is pushed only by the `__FILE__/`__LINE__ arm and '
                        'expansions carry the origin stored with the macro definition (X3).',
-        'decided': 'X1 X2 X3',
+        'decided': 'X1 X2 X3 X17 (X17: Range::eq / cmp interpreted on all 13 order types of the four endpoints: eq is overlap, cmp is Equal iff overlap else by begin)',
         'not_decided': 'that macro origins are "not before the macro body"; double emissions after string literals (X4, registered with C06)',
         'assumptions': ['BTreeMap look-up with a consistent order on disjoint non-empty ranges'],
         'level_text': 'Exhaustive static audit of all emission sites and writers of the origin map; an emission whose recorded range is '
@@ -334,13 +334,13 @@ PROPS = {
         'needs_mir': True,
     },
     'C06': {
-        'rules': [rule('X4', drop=['strip-']), rule('X1'), rule('G10')],
+        'rules': [rule('X4', drop=['strip-']), rule('X1'), rule('G10'), rule('G15')],
         'explanation': 'Restricted to the directive-free part of the pp type graph (SourceDescription::{Comment, StringLiteral, NotDirective, '
                        'EscapedIdentifier} and their trivia) every leaf is emitted exactly once: each variant has an emitting arm (X4b), an '
                        'arm that pushes its whole node either skips the node, or suppresses exactly the descendants that would emit '
                        'again, or the node is a single leaf (X4a); each emission records its own range as origin (X1) — identity on text '
                        'and offsets; the preprocessor applies all_consuming to pp_parser, so nothing is dropped silently (G10).',
-        'decided': 'X4a X4b X1 G10',
+        'decided': 'X4a X4b X1 G10 G15 (G15: a token-level boundary test that needs a next character has an end-of-input alternative, so text ending right after the token is not rejected)',
         'not_decided': 'the rejection clause (which inputs pp_parser rejects); the fixed-point clause (a relation between two runs)',
         'assumptions': ['below a CompilerDirective node white_space yields only WhiteSpace::Space (premise checked from the white_space body and the begin/end_directive bracket)'],
         'level_text': 'Arm-by-arm emission analysis over the CST type graph: each arm that can emit a leaf twice or a kind without handler is named.',
